@@ -60,7 +60,7 @@ class Server:
             proc = mp.get_context("fork").Process(target=_serve, args=(p, capacity, prefix), daemon=True)
             proc.start()
             api.publish_client_port(p)
-            if self._ensure(proc):
+            if self._ensure(proc) and self._is_ours(prefix):
                 self.proc = proc
                 self.port = p
                 return
@@ -71,6 +71,51 @@ class Server:
                 pass
             proc.join(5)
         raise HarnessError(f"real shm server did not come up on ports {port}..{port + attempts - 1} (exit {last})")
+
+    @staticmethod
+    def _raw(msg, timeout: float = 3.0):
+        """One request/response exchange with whoever listens on the published port, with a time-out (the library's client has
+        none: it would block for ever if that server went away in between)."""
+        import socket
+
+        from cascade.shm import api
+
+        s = socket.socket(socket.AF_INET, socket.SOCK_DGRAM)
+        try:
+            s.settimeout(timeout)
+            s.connect(("localhost", api.get_client_port()))
+            s.send(api.ser(msg))
+            return api.deser(s.recv(1024))
+        finally:
+            s.close()
+
+    @classmethod
+    def _is_ours(cls, prefix: str) -> bool:
+        """Somebody answers on the port -- make sure it is the child just started and not another run's server that owns the port
+        (our child would then have failed to bind): the segment name handed out for a probe dataset must carry OUR prefix."""
+        from multiprocessing.shared_memory import SharedMemory
+
+        from cascade.shm import api
+
+        key = f"__probe_{prefix}_{os.getpid()}"
+        try:
+            r = cls._raw(api.AllocateRequest(key=key, l=1, deser_fun="probe"))
+            if not isinstance(r, api.AllocateResponse) or r.error:
+                return False
+            ours = r.shmid.startswith(prefix)
+            seg = SharedMemory(r.shmid, create=True, size=1)  # whoever it is: leave its books as they were
+            seg.close()
+            try:
+                import multiprocessing.resource_tracker as rt
+
+                rt.unregister(seg._name, "shared_memory")
+            except Exception:  # noqa: BLE001
+                pass
+            cls._raw(api.CloseCallback(key=key, rdid=""))
+            cls._raw(api.PurgeRequest(key=key))
+            return ours
+        except Exception:  # noqa: BLE001
+            return False
 
     @staticmethod
     def _ensure(proc) -> bool:
@@ -335,14 +380,24 @@ class Run:
     def _books(self, srv: Server, when: str) -> None:
         """Quiescent point: every writer closed, no request in flight. Disk jobs may still be finishing, so the books must
         balance within a few seconds: reported free space == capacity - total size of the segments that exist."""
-        from cascade.shm import client
+        from cascade.shm import api
+
+        def free_space() -> int:
+            # own socket with a time-out: the library's client would block for ever on a server that has died
+            r = Server._raw(api.FreeSpaceRequest(), timeout=10.0)
+            return r.free_space
 
         deadline = time.time() + 8.0
         last = None
         while True:
-            fs = client.get_free_space()
-            seg = srv.segments_total()
-            fs2 = client.get_free_space()
+            try:
+                fs = free_space()
+                seg = srv.segments_total()
+                fs2 = free_space()
+            except Exception as e:  # noqa: BLE001
+                self.breach("C09", "server-died" if not self.server_alive() else "client-call-raises",
+                            f"{when}: the free-space query got no answer ({e!r}); server process alive: {self.server_alive()}")
+                return
             if fs == fs2:
                 last = (fs, seg)
                 if seg > self.capacity:
@@ -403,13 +458,15 @@ def cases(draw):
     from hypothesis import strategies as st
 
     nthreads = draw(st.integers(2, 6))
-    capacity = draw(st.sampled_from([96, 256, 700, 2048]))
+    capacity = draw(st.sampled_from([96, 256, 700, 2048, 2048, 6 * nthreads * 4096, 6 * nthreads * 8192]))
     nkeys = draw(st.integers(3, 16))
     # per thread at most 3 buffers are pinned at a time (one being written or peeked, two held): pinned <= capacity / 2, so that
     # every request can be served by evicting idle datasets and a time-out is never the script's own doing
     maxsize = max(1, capacity // (6 * nthreads))
     nph = draw(st.integers(1, 3))
     size = st.one_of(st.integers(max(1, maxsize // 2), maxsize), st.just(maxsize), st.integers(1, maxsize))
+    if maxsize >= 4096:  # the disk code moves data in 4096-byte chunks: sizes at and around the multiples
+        size = st.one_of(size, st.sampled_from([s_ for s_ in (4095, 4096, 4097, 8191, 8192) if s_ <= maxsize]))
     k = st.integers(0, nkeys - 1)
     w = st.tuples(st.just("write"), k, size)
     mix = st.one_of(
